@@ -302,13 +302,28 @@ def run_fuzz(binary, target, seconds, workdir, prop, extra_env):
         for name in sorted(set(os.listdir(crashdir)) - before):
             os.remove(os.path.join(crashdir, name))
     elif os.path.isdir(crashdir):
-        for name in sorted(set(os.listdir(crashdir)) - before):
+        new = sorted(set(os.listdir(crashdir)) - before)
+        confirmed = True
+        if new:
+            # The fuzzer saved an input although the oracle did not speak: either the code under
+            # test crashed on it, or a worker died / stalled (the fuzzer gives an input ten seconds,
+            # which a loaded machine can exceed). Run the saved inputs once more, outside the
+            # fuzzing engine: only a failure that repeats is a finding.
+            again = subprocess.run([binary, "-test.run", "^%s$" % target, "-test.timeout", "600s"], cwd=rundir, env=env,
+                                   stdout=subprocess.PIPE, stderr=subprocess.STDOUT, text=True)
+            confirmed = again.returncode != 0
+        for name in new:
             src = os.path.join(crashdir, name)
             dstdir = os.path.join(REPLAYS, prop)
             os.makedirs(dstdir, exist_ok=True)
             dst = os.path.join(dstdir, "fuzz-%s-%s" % (target, name))
             shutil.move(src, dst)
-            crashers.append(dst)
+            if confirmed:
+                crashers.append(dst)
+        if new and not confirmed:
+            # the campaign itself is valid up to that point; the stall is noted, not reported
+            log("fuzz %s: a worker failed on an input that passes when run again (%s) - ignored" % (target, ", ".join(new)))
+            return execs, [], None, p.stdout
     reason = None
     if p.returncode != 0 and not crashers:
         reason = "fuzz run exited %d without a crasher:\n%s" % (p.returncode, p.stdout[-2000:])
